@@ -332,7 +332,23 @@ fn edns() -> impl Strategy<Value = MEdns> {
 fn tsig_rd() -> impl Strategy<Value = (Nm, MRData)> {
     (
         nm(),
-        prop::sample::select(vec!["hmac-sha256", "hmac-sha384", "hmac-sha512", "hmac-sha1", "hmac-md5.sig-alg.reg.int", "x-unknown-alg"]),
+        // the registered names in their registered spelling, and in other letter cases (names a decoder
+        // must hand back as they came: TSIG RDATA is not compressible and its names keep their case)
+        prop::sample::select(vec![
+            "hmac-sha256",
+            "hmac-sha384",
+            "hmac-sha512",
+            "hmac-sha1",
+            "hmac-md5.sig-alg.reg.int",
+            "x-unknown-alg",
+            "HMAC-SHA256",
+            "Hmac-Sha512",
+            "hmac-SHA384",
+            "HMAC-MD5.SIG-ALG.REG.INT",
+            "hmac-sha224",
+            "HMAC-SHA1",
+            "X-Unknown-Alg",
+        ]),
         0u64..(1 << 48),
         any::<u16>(),
         bytes(64),
